@@ -220,7 +220,7 @@ pub fn on_store() {
     });
 }
 
-fn on_store_all() {
+pub fn on_store_all() {
     on_store();
     crate::wake::on_store();
 }
